@@ -396,6 +396,7 @@ fn struct_mutate(rng: &mut Rng, nodes: &mut Vec<Node>, donor: &[Node], kinds_use
     }
 }
 
+#[derive(Clone)]
 struct Mutant {
     text: String,
     files: Vec<(String, String)>,
@@ -404,6 +405,14 @@ struct Mutant {
 }
 
 fn make_mutants(ctx: &Ctx, idx: u64) -> Vec<Mutant> {
+    // the systematic hostile family comes first; it does not depend on the seed
+    let nh = hostile_cases();
+    if idx < nh {
+        let all = systematic_hostile();
+        let a = idx as usize * MUTANTS_PER_CASE;
+        return all[a..(a + MUTANTS_PER_CASE).min(all.len())].to_vec();
+    }
+    let idx = idx - nh;
     let corp = corpus();
     // the first block of cases is the same for every seed
     let nsys = systematic_cases(corp.len());
@@ -523,6 +532,215 @@ fn template_hostile(rng: &mut Rng) -> String {
     s
 }
 
+
+// ------------------------------------------------------------------------------------------------
+// systematic hostile family (identical for every seed): every keyword of the language in every
+// arity with every argument kind, every defcfg option with boundary values, reference graphs of
+// defvar, slot mutations of one valid instance of every top-level form, lexical endings at EOF.
+
+fn keywords_from(path: &str, pat_prefix: &str) -> Vec<String> {
+    // string literals following `pat_prefix` on a line, e.g. `pub const X: &str = "` or `"` + `=>`
+    let mut v = vec![];
+    if let Some(t) = read(path) {
+        for line in t.lines() {
+            let l = line.trim();
+            if pat_prefix == "const" {
+                if l.starts_with("pub const ") && l.contains(": &str = \"") {
+                    if let Some(a) = l.find('"') {
+                        if let Some(b) = l[a + 1..].find('"') {
+                            v.push(l[a + 1..a + 1 + b].to_string());
+                        }
+                    }
+                }
+            } else if l.starts_with('"') && l.contains("=>") {
+                // "key" | "alias" => ...
+                let head = l.split("=>").next().unwrap_or("");
+                for part in head.split('|') {
+                    let p = part.trim();
+                    if p.len() > 2 && p.starts_with('"') && p.ends_with('"') {
+                        v.push(p[1..p.len() - 1].to_string());
+                    }
+                }
+            }
+        }
+    }
+    v.sort();
+    v.dedup();
+    v
+}
+
+fn systematic_hostile() -> &'static Vec<Mutant> {
+    static C: OnceLock<Vec<Mutant>> = OnceLock::new();
+    C.get_or_init(|| {
+        let repo = std::env::var("KV_REPO").unwrap_or_else(|_| "/repo".into());
+        let mut out: Vec<Mutant> = vec![];
+        let mut n = 0usize;
+        let mut push = |out: &mut Vec<Mutant>, desc: &str, text: String, files: Vec<(String, String)>| {
+            n += 1;
+            out.push(Mutant { text, files, via_file: n % 7 == 0, desc: format!("systematic: {desc}") });
+        };
+        const ARGS: &[&str] = &["a", "1", "0", "65536", "()", "\"\"", "(a)", "lctl", "@x", "$x", "-1", "(a b) (c)"];
+        const BAD: &[&str] = &["()", "65536", "\"\"", "(())", "$nope", "@nope"];
+        let base = ["1", "1", "a", "b", "(a)", "a"];
+        // (1) list actions: every keyword x arity 0..=5 x every argument kind; one odd slot in a plausible call
+        let mut kws = keywords_from(&format!("{repo}/parser/src/cfg/list_actions.rs"), "const");
+        for extra in ["macro", "multi", "tap-hold", "switch", "fork", "unmod", "one-shot", "tap-dance", "chord", "layer-while-held", "on-press", "on-release", "on-idle", "hold-for-duration", "sequence", "arbitrary-code", "dynamic-macro-record", "caps-word", "mwheel-up", "movemouse-up", "movemouse-accel-up", "setmouse", "push-msg", "clipboard-set", "cmd", "lrld-num", "unicode", "release-key", "release-layer"] {
+            if !kws.iter().any(|k| k == extra) {
+                kws.push(extra.to_string());
+            }
+        }
+        let pre = "(defsrc a b)\n(defvirtualkeys v a)\n(defchords g 50 (a) a (b) b (a b) c)\n(defalias x a)\n(defvar x a)\n";
+        for k in &kws {
+            for ar in 0..=5usize {
+                for a in ARGS {
+                    let args = vec![*a; ar].join(" ");
+                    push(&mut out, &format!("({k}) arity {ar} all {a}"), format!("{pre}(deflayer base ({k} {args}) b)\n"), vec![]);
+                    if ar == 0 {
+                        break;
+                    }
+                }
+                for pos in 0..ar {
+                    for b in BAD {
+                        let mut args: Vec<&str> = base[..ar].to_vec();
+                        args[pos] = b;
+                        push(&mut out, &format!("({k}) arity {ar} slot {pos} = {b}"), format!("{pre}(deflayer base (multi ({k} {}) a) b)\n", args.join(" ")), vec![]);
+                    }
+                }
+            }
+        }
+        // (2) defcfg: every option x boundary values
+        let opts = keywords_from(&format!("{repo}/parser/src/cfg/defcfg.rs"), "arm");
+        for o in &opts {
+            for v in ["yes", "no", "0", "1", "5", "65535", "65536", "-1", "()", "\"x\"", "(a b)", "abc", "", "(all-except)", "(all-except a ())"] {
+                push(&mut out, &format!("defcfg {o} {v}"), format!("(defcfg {o} {v})\n(defsrc a)\n(deflayer base a)\n"), vec![]);
+            }
+        }
+        // (3) top-level forms with degenerate bodies
+        let tops = [
+            "defcfg", "defsrc", "deflayer", "deflayermap", "defalias", "defaliasenvcond", "defvar", "deftemplate", "defvirtualkeys", "deffakekeys", "defchords", "defchordsv2", "defchordsv2-experimental", "defseq", "defoverrides", "defzippy",
+            "defzippy-experimental", "deflocalkeys-linux", "deflocalkeys-win", "deflocalkeys-macos", "include", "platform", "environment", "template-expand", "t!", "if-equal", "concat",
+        ];
+        for t in tops {
+            for body in ["", "()", "a", "a a", "a ()", "() a", "(a)", "(a) (b)", "a (a ())", "1", "1 2 3", "\"\"", "(()) (())", "a 1 a 1 a", "(a) a (a) a", "x (include)", "(linux) ()", "(a b) a 50 all-released ()", "(a) ()"] {
+                push(&mut out, &format!("({t} {body})"), format!("(defsrc a b)\n(deflayer base a b)\n({t} {body})\n"), vec![("a".into(), "a\tb\n".into())]);
+            }
+        }
+        // (4) defvar reference graphs over three variables, with use sites
+        let vals = ["$a", "$b", "$c", "1", "($a)", "(concat $b)", "(multi $c)", "(concat $a $b)", "($b $c)"];
+        for va in vals {
+            for vb in vals {
+                for vc in ["$a", "$b", "1", "(concat $a)"] {
+                    for use_ in ["$a", "(multi $b a)", "a"] {
+                        push(&mut out, &format!("defvar a={va} b={vb} c={vc} use {use_}"), format!("(defvar a {va} b {vb} c {vc})\n(defsrc a)\n(deflayer base {use_})\n"), vec![]);
+                    }
+                }
+            }
+        }
+        // (5) one valid instance of every top-level form, each token replaced / deleted / doubled
+        let skeletons: &[&str] = &[
+            "(defchordsv2 (a b) c 50 all-released (base))",
+            "(defchords g 50 (a) a (b) b (a b) c)",
+            "(defseq s1 (a b) s2 (O-(a b) S-c))",
+            "(defvirtualkeys w1 a w2 b)",
+            "(defoverrides (lsft a) (lsft 9) (a) (b))",
+            "(deflocalkeys-linux yen 124 won 130)",
+            "(defzippy a on-first-press-chord-deadline 500 idle-reactivate-time 500 smart-space-punctuation (? ! . , ; :) output-character-mappings (! S-1 ? S-/ % S-5 \"(\" S-9 \")\" S-0 : S-; + (no-erase `) * (single-output S-AG-v)))",
+            "(defzippy a smart-space add-space-only)",
+            "(deflayermap (l2) a b c (tap-hold 1 1 a b) _ c)",
+            "(deftemplate t1 (p q) (defalias $p $q)) (t! t1 al a)",
+            "(deftemplate t2 (p) (if-equal $p a (defalias al2 b)) (if-in-list $p (a b) (defalias al3 b)))",
+            "(defaliasenvcond (E v) al4 a)",
+            "(platform (linux) (defalias al5 a))",
+            "(environment (E v) (defalias al6 a))",
+            "(include a)",
+            "(defalias al7 (switch ((and a (or b (not c)) (key-history a 1) (key-timing 1 lt 100) (input real a) (input-history virtual s1 1) (layer base) (base-layer base))) a break () b fallthrough))",
+            "(defalias al8 (macro a 10 S-(a b) (unicode x) C-a))",
+            "(defalias al9 (fork a b (lsft rsft)))",
+            "(defalias al10 (unmod (lsft) a b))",
+            "(defalias al11 (caps-word-custom 100 (a b) (c)))",
+            "(defalias al12 (tap-hold-release-keys 1 1 a b (a b)))",
+        ];
+        let swaps = ["", "()", "(())", "\"\"", "65536", "0", "-1", "zz", "$nope", "@nope", "🔣", "(a (b (c)))", "S-", "O-()", "C-S-()", "S-()", "255", "256", "766", "767", "768", "65535", "O-(a)", "O-(a b c d e f g)"];
+        for sk in skeletons {
+            let toks: Vec<&str> = sk.split(' ').collect();
+            for i in 1..toks.len() {
+                let strip = |t: &str| t.trim_matches(|c| c == '(' || c == ')').to_string();
+                for sw in swaps {
+                    let mut t2: Vec<String> = toks.iter().map(|x| x.to_string()).collect();
+                    // keep the parentheses attached to the token so that the text stays balanced
+                    let core = strip(toks[i]);
+                    if core.is_empty() {
+                        continue;
+                    }
+                    t2[i] = toks[i].replacen(&core, sw, 1);
+                    push(&mut out, &format!("{}: token {i} -> {sw}", toks[0]), format!("(defsrc a b c)\n(deflayer base a b c)\n(deflayer l2 a b c)\n(defvirtualkeys s1 a s2 b)\n{}\n", t2.join(" ")), vec![("a".into(), "ab\tx\nab c\ty\n".into())]);
+                }
+                // delete / double the token (only tokens without parentheses)
+                if !toks[i].contains('(') && !toks[i].contains(')') {
+                    let mut t2: Vec<&str> = toks.clone();
+                    t2.remove(i);
+                    push(&mut out, &format!("{}: token {i} deleted", toks[0]), format!("(defsrc a b c)\n(deflayer base a b c)\n(deflayer l2 a b c)\n(defvirtualkeys s1 a s2 b)\n{}\n", t2.join(" ")), vec![("a".into(), "ab\tx\n".into())]);
+                    let mut t3: Vec<&str> = toks.clone();
+                    t3.insert(i, toks[i]);
+                    push(&mut out, &format!("{}: token {i} doubled", toks[0]), format!("(defsrc a b c)\n(deflayer base a b c)\n(deflayer l2 a b c)\n(defvirtualkeys s1 a s2 b)\n{}\n", t3.join(" ")), vec![("a".into(), "ab\tx\n".into())]);
+                }
+            }
+        }
+        // (5a) local keys at the edges of the code space, used in defsrc / deflayermap / actions
+        for form in ["deflocalkeys-linux", "deflocalkeys-win", "deflocalkeys-winiov2", "deflocalkeys-wintercept", "deflocalkeys-macos"] {
+            for code in ["0", "1", "255", "256", "700", "765", "766", "767", "768", "1000", "65535", "65536", "-1", "a", "()"] {
+                push(&mut out, &format!("{form} k {code} in defsrc"), format!("({form} k {code})\n(defsrc k a)\n(deflayer base k a)\n"), vec![]);
+                push(&mut out, &format!("{form} k {code} in deflayermap/action"), format!("({form} k {code})\n(defsrc a)\n(deflayermap (base) k a a (multi k (fork k a (k)) (switch (k) k break)))\n(defoverrides (k) (a))\n"), vec![]);
+            }
+        }
+        // (5b) chord files of defchordsv2 (include ...): present, absent, empty, malformed
+        for (inc, file) in [
+            ("(include c.tsv)", Some("ab\tx\n")),
+            ("(include c.tsv)", None),
+            ("(include c.tsv)", Some("")),
+            ("(include c.tsv)", Some("ab")),
+            ("(include c.tsv)", Some("ab\t")),
+            ("(include c.tsv)", Some("\tx")),
+            ("(include c.tsv)", Some("ab\tx\ty")),
+            ("(include c.tsv)", Some("ab\t(")),
+            ("(include c.tsv)", Some("ab\t)")),
+            ("(include c.tsv)", Some("ab\t(multi")),
+            ("(include c.tsv)", Some("a\tx")),
+            ("(include c.tsv)", Some("ab\tx\nab\ty")),
+            ("(include c.tsv)", Some("ab\tx\n\n\n")),
+            ("(include c.tsv)", Some("🔣b\tx")),
+            ("(include c.tsv)", Some("ab\t🔣")),
+            ("(include c.tsv)", Some("<DIR>")),
+            ("(include)", Some("ab\tx\n")),
+            ("(include c.tsv c.tsv)", Some("ab\tx\n")),
+            ("(include ())", Some("ab\tx\n")),
+            ("(include \"\")", Some("ab\tx\n")),
+            ("(include c.tsv) (a b) c 50 all-released ()", Some("ab\tx\n")),
+            ("(a b) c 50 all-released () (include c.tsv)", Some("cd\tx\n")),
+        ] {
+            let files: Vec<(String, String)> = file.map(|f| vec![("c.tsv".to_string(), f.to_string())]).unwrap_or_default();
+            push(&mut out, &format!("defchordsv2 {inc} file {file:?}"), format!("(defcfg concurrent-tap-hold yes)\n(defsrc a b c d)\n(deflayer base a b c d)\n(defchordsv2 {inc})\n"), files);
+        }
+        // (6) zippychord dictionary files
+        for dict in ["", "\n", "ab", "ab\t", "\tx", "ab\tx\nab\ty", "a b\tx", "ab  c\tx", "ab\tx\n\n\nzz", "🔣\tx", "ab\t🔣", "ab\tx y z\nab c\tq\nab c d\tr", " \t ", "a\tb\tc", "ab\t\\", "AB\tX"] {
+            push(&mut out, &format!("defzippy dictionary {dict:?}"), "(defsrc a b c)\n(deflayer base a b c)\n(defzippy z)\n".into(), vec![("z".into(), dict.into())]);
+        }
+        // (7) lexical endings at end of file, in the main and in an included file
+        for open in ["\"abc", "r#\"abc", "#|abc", ";; abc", "(", "(a", ")", "(defalias q \"", "(defalias q r#\"x", "#", "r#", "r", "\\", "|#"] {
+            for tail in ["", "x", "é", "✗", "🔣", " é", "\né", "é\n"] {
+                let main = format!("(defsrc a)\n(deflayer base a)\n{open}{tail}");
+                push(&mut out, &format!("eof main {open:?}+{tail:?}"), main, vec![]);
+                push(&mut out, &format!("eof included {open:?}+{tail:?}"), "(defsrc a)\n(deflayer base a)\n(include inc.kbd)\n".into(), vec![("inc.kbd".into(), format!("(defalias w a)\n{open}{tail}"))]);
+            }
+        }
+        out
+    })
+}
+
+fn hostile_cases() -> u64 {
+    (systematic_hostile().len() as u64).div_ceil(MUTANTS_PER_CASE as u64)
+}
+
 fn systematic_cases(corpus_len: usize) -> u64 {
     (corpus_len as u64) * 6
 }
@@ -532,7 +750,7 @@ impl Check for C03Check {
         "C03"
     }
     fn n_cases(&self, ctx: &Ctx) -> u64 {
-        systematic_cases(corpus().len()) + ctx.tier.sel(4_000, 200_000)
+        hostile_cases() + systematic_cases(corpus().len()) + ctx.tier.sel(4_000, 200_000)
     }
     fn describe(&self, ctx: &Ctx, idx: u64) -> Value {
         let ms = make_mutants(ctx, idx);
@@ -547,6 +765,9 @@ impl Check for C03Check {
                 eprintln!("--- mutant ({}) via_file={}\n{}", m.desc, m.via_file, m.text);
             }
             j.out.inc("texts");
+            if m.desc.starts_with("systematic:") {
+                j.out.inc("systematic_hostile_texts");
+            }
             j.out.tag(format!("mut:{}", m.desc.chars().take(80).collect::<String>()));
             if m.via_file {
                 let files: Vec<(String, Vec<u8>)> = m.files.iter().map(|(n, t)| (n.clone(), t.as_bytes().to_vec())).collect();
@@ -565,7 +786,7 @@ impl Check for C03Check {
         j.out
     }
     fn rule(&self) -> String {
-        format!("case = {MUTANTS_PER_CASE} texts derived from one seed text: every shipped sample config, every parser test config, every [source] block of docs/config.adoc (fragments wrapped with a minimal defsrc/deflayer), every config string literal in the test sources (all read from /repo at run time; this block of cases is identical for every VERIF_SEED), and grammar-generated valid configs (random part). Texts are produced by structure-aware mutation inside one top-level form (delete/duplicate/swap/splice sub-expressions, () for atoms, atoms for lists, boundary numbers, unknown and self-referential names, dropped/extra arguments, wrap/unwrap) and by byte-level mutation (insert/delete/flip/truncate, multi-byte characters, unterminated strings/comments); included files are damaged, emptied, removed or replaced by a directory. Bounds: <= 64 KiB, parenthesis depth <= 64. Both entry points (new_from_str with a file map, new_from_file on a scratch directory). Non-trivial/distinct = distinct (seed, mutation kinds, head of mutated form) descriptions and distinct diagnostic messages.")
+        format!("first block (identical for every seed): the systematic hostile family - every list-action keyword of parser/src/cfg/list_actions.rs (read from /repo at run time) x arity 0..5 x every argument kind and one odd slot in a plausible call; every defcfg option x boundary values; every top-level form with degenerate bodies; defvar reference graphs over three variables (self, mutual and longer cycles through atoms, lists, concat) with use sites; one valid instance of every top-level form / rich action with each token replaced by hostile atoms, deleted or doubled; zippychord dictionary files; lexical endings (unterminated string / raw string / block comment / parenthesis) at end of file followed by 1-4-byte characters, in the main and in an included file. Then: case = {MUTANTS_PER_CASE} texts derived from one seed text: every shipped sample config, every parser test config, every [source] block of docs/config.adoc (fragments wrapped with a minimal defsrc/deflayer), every config string literal in the test sources (all read from /repo at run time; this block of cases is identical for every VERIF_SEED), and grammar-generated valid configs (random part). Texts are produced by structure-aware mutation inside one top-level form (delete/duplicate/swap/splice sub-expressions, () for atoms, atoms for lists, boundary numbers, unknown and self-referential names, dropped/extra arguments, wrap/unwrap) and by byte-level mutation (insert/delete/flip/truncate, multi-byte characters, unterminated strings/comments); included files are damaged, emptied, removed or replaced by a directory. Bounds: <= 64 KiB, parenthesis depth <= 64. Both entry points (new_from_str with a file map, new_from_file on a scratch directory). Non-trivial/distinct = distinct (seed, mutation kinds, head of mutated form) descriptions and distinct diagnostic messages.")
     }
     fn assumptions(&self) -> Vec<String> {
         vec![
@@ -575,7 +796,7 @@ impl Check for C03Check {
         ]
     }
     fn floors(&self, _ctx: &Ctx) -> Vec<(&'static str, u64)> {
-        vec![("accepted", 500), ("errors_with_span", 2000), ("parses_from_file", 500)]
+        vec![("accepted", 500), ("errors_with_span", 2000), ("parses_from_file", 500), ("systematic_hostile_texts", 10_000)]
     }
     fn hang_is_violation(&self) -> bool {
         true
